@@ -98,6 +98,11 @@ pub struct History<'a> {
     /// an injected store failure was reported and no import has consulted the node on the same
     /// connection since
     after_failed_write: bool,
+    /// a known root cause fired during an import that was NOT judged (it ended with the injected
+    /// store failure or the modelled chain-sync time-out): what it left behind is only seen by a
+    /// later, judged import and is filed under the same root cause. Cleared when the store is wiped
+    /// or found equal to a fresh import.
+    taint: Option<&'static str>,
     ref_counter: u64,
     root_cache: HashMap<(String, u64), (String, String)>,
     dead: bool,
@@ -160,6 +165,7 @@ impl<'a> History<'a> {
             last_target: None,
             arm_store_fault: None,
             after_failed_write: false,
+            taint: None,
             ref_counter: 0,
             root_cache: HashMap::new(),
             dead: false,
@@ -202,6 +208,7 @@ impl<'a> History<'a> {
             Self::drop_ref(x.sut);
         }
         self.stored = Snapshot::default();
+        self.taint = None;
         self.floor.store(0, Ordering::SeqCst);
         self.first_import_after_restart = false;
         self.witnesses += 1;
@@ -563,7 +570,7 @@ impl<'a> History<'a> {
                     _ => {}
                 }
             }
-            root_cause = oracle::root_cause(&l, &before, self.after_failed_write);
+            root_cause = oracle::root_cause(&l, &before, self.after_failed_write).or(self.taint);
             (oracle::cause(&l, &before, self.first_import_after_restart), oracle::relayed_json(&l), consulted, timeout, buffer_rb)
         };
         if buffer_rb {
@@ -608,6 +615,10 @@ impl<'a> History<'a> {
                     // modelled chainsync time-out (client waiting at the tip, nothing new): the real
                     // reader fails the same way; the state is whatever was stored so far
                     self.mon.count("import_error:model_timeout");
+                    if root_cause.is_some() && self.taint.is_none() {
+                        self.taint = root_cause;
+                        self.mon.count("known root cause fired in an import that ended with the modelled time-out (carried over)");
+                    }
                     if std::env::var("VERIF_C13_DEBUG").is_ok() {
                         eprintln!("MODEL TIMEOUT shard {} history {} cfg {} events {}", self.shard, self.index, self.cfg.describe(), serde_json::to_string(&self.events).unwrap_or_default());
                     }
@@ -619,6 +630,10 @@ impl<'a> History<'a> {
                     // before the failing write; the retry that follows is the judged step
                     self.mon.count("import_error:injected store failure reported");
                     self.after_failed_write = true;
+                    if root_cause.is_some() && self.taint.is_none() {
+                        self.taint = root_cause;
+                        self.mon.count("known root cause fired in an import that ended with the injected store failure (carried over)");
+                    }
                     self.expected.take().map(|x| Self::drop_ref(x.sut));
                     return;
                 }
@@ -765,6 +780,8 @@ impl<'a> History<'a> {
                 Self::drop_ref(rsut);
                 return;
             }
+            // the store equals a fresh import: nothing is left of an earlier unjudged import
+            self.taint = None;
             if let Some(old) = self.expected.replace(Expected { target: depth, hashes: hashes_now.clone(), snapshot: rsnap.clone(), sut: rsut }) {
                 Self::drop_ref(old.sut);
             }
